@@ -131,7 +131,9 @@ func c19wNewNode(t *testing.T) *c19wNode {
 			`"DOMAIN_VOLUNTARY_EXIT":"0x04000000","DOMAIN_SELECTION_PROOF":"0x05000000","DOMAIN_AGGREGATE_AND_PROOF":"0x06000000",`+
 			`"DOMAIN_SYNC_COMMITTEE":"0x07000000","DOMAIN_SYNC_COMMITTEE_SELECTION_PROOF":"0x08000000",`+
 			`"DOMAIN_CONTRIBUTION_AND_PROOF":"0x09000000","DOMAIN_APPLICATION_BUILDER":"0x00000001",`+
-			`"GENESIS_FORK_VERSION":"0x00000000","ALTAIR_FORK_EPOCH":"0","ALTAIR_FORK_VERSION":"0x01000000"}}`)
+			`"TARGET_AGGREGATORS_PER_COMMITTEE":"16","SYNC_COMMITTEE_SIZE":"512","SYNC_COMMITTEE_SUBNET_COUNT":"4",`+
+			`"TARGET_AGGREGATORS_PER_SYNC_SUBCOMMITTEE":"16","EPOCHS_PER_SYNC_COMMITTEE_PERIOD":"256","MAX_COMMITTEES_PER_SLOT":"64",`+
+			`"TARGET_COMMITTEE_SIZE":"128","GENESIS_FORK_VERSION":"0x00000000","ALTAIR_FORK_EPOCH":"0","ALTAIR_FORK_VERSION":"0x01000000"}}`)
 	})
 	mux.HandleFunc("/eth/v1/beacon/headers/", func(w http.ResponseWriter, _ *http.Request) {
 		n.headers.Add(1)
@@ -432,7 +434,8 @@ func (w *c19wWorld) boot(st c19wStep) verifsupport.Ev {
 				c19wSetDoc(doc, []string{"graffiti", "dynamic"}, "location", "file:///nonexistent/graffiti")
 			}
 			continue
-		case "eth2client", "multiclient", "majordomo", "signer", "validatorsmanager", "cache", "attestingnodes":
+		case "eth2client", "multiclient", "majordomo", "signer", "validatorsmanager", "cache", "attestingnodes",
+			"beaconblockproposer", "attester", "attestationaggregator", "beaconcommitteesubscriber":
 			continue
 		default:
 			path = []string{"strategies", s.S}
@@ -737,6 +740,9 @@ func (w *c19wWorld) start(svc string) ([]c19wObs, error) {
 		}
 		return w.newClients(), nil
 	default:
+		if c19wSigningModules[svc] {
+			return w.startSigning(svc)
+		}
 		return nil, fmt.Errorf("unknown service %q", svc)
 	}
 	clients := w.newClients()
@@ -794,7 +800,7 @@ var c19wDriven = map[string]bool{
 	"selectSyncCommitteeContributionProvider": true, "selectBeaconBlockRootProvider": true, "selectSubmitterStrategy": true,
 	"genericAddressToClientMapper": true, "startMultinodeSubmitter": true, "selectBuilderBidProvider": true,
 	"selectSignedBeaconBlockProvider": true, "selectBeaconHeaderProvider": true, "selectScheduler": true, "startCache": true,
-	"startGraffitiProvider": true, "startValidatorsManager": true, "fetchClient": true, "fetchMultiClient": true,
+	"startGraffitiProvider": true, "startValidatorsManager": true, "fetchClient": true, "startProviders": true, "startSigningServices": true, "fetchMultiClient": true,
 }
 
 // census of the call sites of the hierarchical lookups in package main (read from the sources the test was built
